@@ -3505,3 +3505,71 @@ def translate_irvall(repo):
             if not par: _fail(node, "preference_matrix_1 is read somewhere")
     return "\n".join(["(* GENERATED by harness/translate.py from Irving.find_all_rotations_and_eliminations (deterministic_matching.py:%d), whose statements were matched one by one. Do not edit. *)" % f.lineno,
                       "From Coq Require Import Arith ZArith List Bool.", "Import ListNotations.", "From SCK Require Import FlowModel Mwcs Irving.", "", ALL_GALLINA])
+
+# ---------------------------------------------------------------------------------------------------------------
+# profile_utils.profile_with_ties_to_strict_profile (statements matched one by one; the reordering of a tied group is a parameter)
+STRICT_SHAPE = """check_tie_breaker(tie_breaker, include_accept=False)
+check_profile(profile, is_complete=False, is_strict=False)
+n = profile.shape[0]
+m = profile.shape[1]
+strict_profile = np.array(profile)
+ranked_profile = np.argsort(profile, axis=1)
+for i in range(n):
+  r = 0
+  while r < m:
+    k = 1
+    while k < m - r and profile[i, ranked_profile[i, r + k]] == profile[i, ranked_profile[i, r]]:
+      k += 1
+    num_tied = k
+    if np.isnan(profile[i, ranked_profile[i, r]]):
+      break
+    tied_indices = np.array([ranked_profile[i, r + j] for j in range(num_tied)])
+    if num_tied > 1:
+      if tie_breaker == 'random':
+        np.random.shuffle(tied_indices)
+      if tie_breaker == 'first':
+        tied_indices = np.sort(tied_indices)
+    strict_profile[i, tied_indices] = np.arange(r + 1, r + num_tied + 1)
+    r += num_tied
+if isinstance(profile, CompleteProfile):
+  return StrictCompleteProfile.of(strict_profile)
+return StrictIncompleteProfile.of(strict_profile)"""
+
+STRICT_GALLINA = r"""(* One agent (row i). A rank that may be NaN is an option Q; `==` on floats is Qeq_bool and False on NaN. ranked_row = np.argsort(profile_row) is an input
+   (numpy's sort). The reordering of a group of tied alternatives - np.random.shuffle for 'random', np.sort for 'first', nothing for a single alternative - is the
+   parameter reorder (what is assumed of it is stated in the proof file). fuel bounds the passes of the two while loops (m + 1 suffice). *)
+Definition gen_strict_eq (a b : option Q) : bool := match a, b with Some x, Some y => Qeq_bool x y | _, _ => false end.
+(* k = 1; while k < m - r and profile[i, ranked[r + k]] == profile[i, ranked[r]]: k += 1 *)
+Fixpoint gen_strict_run (profile_row : list (option Q)) (ranked_row : list nat) (m r : nat) (fuel k : nat) : nat :=
+  match fuel with O => k | S f =>
+    if (k <? m - r)%nat && gen_strict_eq (nth (nth (r + k) ranked_row O) profile_row None) (nth (nth r ranked_row O) profile_row None)
+    then gen_strict_run profile_row ranked_row m r f (S k) else k end.
+(* strict_profile[i, tied_indices] = np.arange(r + 1, r + num_tied + 1) *)
+Definition gen_strict_assign (strict_row : list (option Q)) (tied_indices : list nat) (r : nat) : list (option Q) :=
+  fold_left (fun s xj => upd s (fst xj) (Some (inject_Z (Z.of_nat (snd xj))))) (combine tied_indices (seq (r + 1) (length tied_indices))) strict_row.
+Fixpoint gen_strict_loop (reorder : list nat -> list nat) (profile_row : list (option Q)) (ranked_row : list nat) (m : nat) (fuel r : nat) (strict_row : list (option Q)) : option (list (option Q)) :=
+  match fuel with O => None | S f =>
+    if negb (r <? m)%nat then Some strict_row else
+    let k := gen_strict_run profile_row ranked_row m r (S m) 1 in
+    let num_tied := k in
+    match nth (nth r ranked_row O) profile_row None with None => Some strict_row (* break *) | Some _ =>
+    let tied_indices := map (fun j => nth (r + j) ranked_row O) (seq 0 num_tied) in
+    let tied_indices := if (1 <? num_tied)%nat then reorder tied_indices else tied_indices in
+    gen_strict_loop reorder profile_row ranked_row m f (r + num_tied) (gen_strict_assign strict_row tied_indices r) end
+  end.
+(* strict_profile = np.array(profile): the row starts as a copy of the profile row *)
+Definition gen_strict_row (reorder : list nat -> list nat) (profile_row : list (option Q)) (ranked_row : list nat) : option (list (option Q)) :=
+  let m := length profile_row in gen_strict_loop reorder profile_row ranked_row m (S m) 0 profile_row.
+"""
+
+def translate_strictify(repo):
+    src = open(os.path.join(repo, "socialchoicekit", "profile_utils.py")).read()
+    f = _find(ast.parse(src).body, ast.FunctionDef, "profile_with_ties_to_strict_profile")
+    a = [x.arg for x in f.args.args]
+    if a != ["profile", "tie_breaker"] or [U(d) for d in f.args.defaults] != ["'random'"] or f.args.vararg or f.args.kwarg or f.args.kwonlyargs: _fail(f, "profile_with_ties_to_strict_profile(profile, tie_breaker='random') expected")
+    got = _structure(_body(f)); want = STRICT_SHAPE.split("\n")
+    for k in range(max(len(got), len(want))):
+        g_ = got[k] if k < len(got) else "<end>"; w_ = want[k] if k < len(want) else "<end>"
+        if g_ != w_: _fail(f, "profile_with_ties_to_strict_profile, statement %d: %r expected, got %r" % (k + 1, w_.strip(), g_.strip()))
+    return "\n".join(["(* GENERATED by harness/translate.py from profile_with_ties_to_strict_profile (profile_utils.py:%d), whose statements were matched one by one. Do not edit. *)" % f.lineno,
+                      "From Coq Require Import Arith ZArith QArith List Bool.", "Import ListNotations.", "From SCK Require Import Eat3.", "", STRICT_GALLINA])
